@@ -1,4 +1,8 @@
 """C13 - query replies report the device's data verbatim."""
+import os
+import re
+import shutil
+import tempfile
 from hypothesis import strategies as st
 
 from vlib.core import Violation, Out
@@ -6,6 +10,7 @@ from vlib.runner import HypStage
 from vlib import mw, refs
 from vlib.device import SIGNER, UIHB, BOOT
 from vlib.strategies import byte_string_1_33
+from ledger.pin import FileBasedPin     # noqa: E402
 
 ID = "C13"
 LEVEL = "exploration"
@@ -67,7 +72,7 @@ def one_query(draw, tier):
                       "pubkey": draw(st.binary(min_size=65, max_size=65))}
         if ui:
             c["exit_modes"] = draw(st.one_of(
-                st.just([UIHB, SIGNER]), st.just([UIHB, SIGNER]),
+                st.just([UIHB, SIGNER]), st.just([UIHB, SIGNER]), st.just([UIHB, BOOT]),
                 st.lists(st.sampled_from([UIHB, SIGNER, BOOT]), min_size=2, max_size=2)))
             c["exit_raises"] = draw(st.booleans())
             c["mode_error_after"] = draw(st.sampled_from([None, None, None, 1, 2]))
@@ -98,7 +103,10 @@ def cases(draw, tier):
         nxt["reconnect"] = draw(st.booleans())
         steps.append(nxt)
     v1 = all(q["cmd"] == "getPubKey" for q in steps) and draw(st.booleans())
-    return {"steps": steps, "v1": v1}
+    # the manager may hold the device PIN (it then knows how to get past a bootloader); where
+    # the bootloader's exit leads is the device's business
+    return {"steps": steps, "v1": v1, "pin": draw(st.booleans()),
+            "post_mode": draw(st.sampled_from([SIGNER, SIGNER, BOOT, UIHB]))}
 
 
 @st.composite
@@ -111,6 +119,23 @@ def one_query_of(draw, tier, cmd):
     return q
 
 
+class Number:
+    def __init__(self, value):
+        self.value = value
+
+
+_TMP = {}
+
+
+def tmpdir():
+    pid = os.getpid()
+    if pid not in _TMP:
+        _TMP[pid] = tempfile.mkdtemp(prefix="verif-c13-")
+        import atexit
+        atexit.register(shutil.rmtree, _TMP[pid], True)
+    return _TMP[pid]
+
+
 def run_case(c):
     w = mw.default_world()
     p = None
@@ -118,14 +143,24 @@ def run_case(c):
     if len(c["steps"]) >= 2:
         labels.append("history")
     for i, q in enumerate(c["steps"]):
+        mark = len(w.log)
+        asked = False
         if p is not None and q.get("reconnect"):
             # the link drops and the manager reconnects (to a possibly different device state)
-            getattr(p, "protocol_v2", p)._comm_issue = True
-            labels.append("reconnect")
+            pp = getattr(p, "protocol_v2", p)
+            if hasattr(pp, "report_comm_issue"):
+                pp.report_comm_issue()
+            else:
+                pp._comm_issue = True
+            asked = True
         w.mode_error = False
-        q = dict(q, v1=bool(c.get("v1")))
+        q = dict(q, v1=bool(c.get("v1")), pin=bool(c.get("pin")))
+        w.post_mode = c.get("post_mode", SIGNER)
         out, p = run_query(q, w, p)
         labels.extend(out)
+        if asked:
+            labels.append("reconnect" if any(e[0] == "connect" for e in w.log[mark:])
+                          else "reconnect-not-observed")
         if q["cmd"] == "uiHeartbeat" and (q["exit_modes"] != [UIHB, SIGNER] or
                                           q.get("mode_error_after")):
             break          # the device did not obey the mode switches: the history ends here
@@ -171,7 +206,14 @@ def run_query(c, w, p):
             w.hb_fault = (ui, c["hb_fault"][0], c["hb_fault"][1])
             labels.append("hb-fault")
     if p is None:
-        p = mw.stack(w, v1=bool(c.get("v1")))
+        pin = None
+        if c.get("pin"):
+            pf = os.path.join(tmpdir(), "pin.txt")
+            with open(pf, "wb") as f:
+                f.write(w.pin)
+            pin = FileBasedPin(pf, w.pin, False)
+            labels.append("manager-holds-pin")
+        p = mw.stack(w, v1=bool(c.get("v1")), pin=pin)
     if cmd == "uiHeartbeat" and c.get("mode_error_after"):
         # GET_MODE starts failing after the n-th exit (device in an unknown state)
         n_target = c["mode_error_after"]
@@ -193,9 +235,37 @@ def run_query(c, w, p):
         if got != want:
             raise Violation("field:%s" % what, "reply has %r, device holds %r" % (got, want))
 
+    def named_fields(got, want, what):
+        """Every field the docs name carries the device's datum (further fields are allowed)."""
+        if not isinstance(got, dict):
+            raise Violation("field:%s" % what, "reply has %r" % (got,))
+        for k, v in want.items():
+            if isinstance(v, dict):
+                named_fields(got.get(k), v, "%s.%s" % (what, k))
+            elif isinstance(v, Number):
+                same_number(got.get(k), v.value, "%s.%s" % (what, k))
+            else:
+                expect(got.get(k), v, "%s.%s" % (what, k))
+                if type(got.get(k)) is not type(v):
+                    raise Violation("field-type:%s.%s" % (what, k), repr(got.get(k)))
+
+    def same_number(got, value, what):
+        """The same unsigned number: a JSON integer, or (as docs/protocol.md words it) the hex
+        string of its big-endian bytes."""
+        if type(got) is int:
+            n = got
+        elif type(got) is str and re.fullmatch(r"(0x)?[0-9a-fA-F]+", got):
+            n = int(got, 16)
+        else:
+            raise Violation("field:%s" % what, "reply has %r, device holds the number %d" % (
+                got, value))
+        if n != value:
+            raise Violation("field:%s" % what, "reply has %r, device holds %d (%#x)" % (
+                got, value, value))
+
     if cmd == "getPubKey":
-        expect(rep, {"errorcode": 0, "pubKey": dict(zip(refs.ALL_PATHS, c["keys"]))[
-            c["path"]].hex()}, "pubKey")
+        named_fields(rep, {"errorcode": 0, "pubKey": dict(zip(refs.ALL_PATHS, c["keys"]))[
+            c["path"]].hex()}, "getPubKey")
     elif cmd == "blockchainState":
         expect(rep["errorcode"], 0, "errorcode")
         st_ = rep.get("state", {})
@@ -206,34 +276,27 @@ def run_query(c, w, p):
                 want["updating"][name.split(".")[1]] = h.hex()
             else:
                 want[name] = h.hex()
-        want["updating"]["total_difficulty"] = c["difficulty"]
+        want["updating"]["total_difficulty"] = Number(c["difficulty"])
         for nm, v in zip(["in_progress", "already_validated", "found_best_block"], c["flags"]):
             want["updating"][nm] = bool(v)
-        for k in want:
-            if k != "updating":
-                expect(st_.get(k), want[k], k)
-        for k in want["updating"]:
-            got = st_.get("updating", {}).get(k)
-            expect(got, want["updating"][k], "updating." + k)
-            if type(got) is not type(want["updating"][k]):
-                raise Violation("field-type:updating." + k, repr(got))
-        expect(st_, want, "state (extra or missing keys)")
-        expect(set(rep), {"errorcode", "state"}, "reply keys")
+        named_fields(st_, want, "state")
     elif cmd == "blockchainParameters":
-        expect(rep, {"errorcode": 0, "parameters": {
-            "checkpoint": c["checkpoint"].hex(), "minimum_difficulty": c["min_diff"],
-            "network": NETWORKS[c["network"]]}}, "parameters")
+        named_fields(rep, {"errorcode": 0, "parameters": {
+            "checkpoint": c["checkpoint"].hex(), "minimum_difficulty": Number(c["min_diff"]),
+            "network": NETWORKS[c["network"]]}}, "blockchainParameters")
     else:
         ui = cmd == "uiHeartbeat"
         want = {"errorcode": 0, "pubKey": c["pubkey"].hex(),
                 "message": (c["prefix"] + c["ud"]).hex(), "tweak": c["hash"].hex(),
                 "signature": {"r": c["sig"]["r"].hex(), "s": c["sig"]["s"].hex()}}
         if c.get("hb_fault"):
-            expect(rep, {"errorcode": -905}, cmd + " after a heartbeat failure on the device")
-            if ui and rep["errorcode"] == 0 and w.mode != SIGNER:
-                raise Violation("uihb-success-not-back-in-signer", "mode %r" % w.mode)
+            # the device refused the heartbeat: a documented failure code, no heartbeat data
+            if rep["errorcode"] not in (-301, -905, -906) or \
+                    set(rep) & (set(want) - {"errorcode"}):
+                raise Violation("field:%s after a heartbeat failure on the device" % cmd,
+                                repr(rep)[:200])
         elif not ui:
-            expect(rep, want, "signerHeartbeat")
+            named_fields(rep, want, "signerHeartbeat")
         else:
             nominal = c["exit_modes"] == [UIHB, SIGNER] and not c.get("mode_error_after")
             if rep["errorcode"] == 0:
@@ -241,10 +304,10 @@ def run_query(c, w, p):
                     raise Violation("uihb-success-not-back-in-signer",
                                     "reply 0, device mode %r (mode query failing: %s)" % (
                                         w.mode, w.mode_error))
-                expect(rep, want, "uiHeartbeat")
+                named_fields(rep, want, "uiHeartbeat")
                 labels.append("uihb:ok")
             else:
-                expect(rep, {"errorcode": -905}, "uiHeartbeat error reply")
+                expect(rep["errorcode"], -905, "uiHeartbeat error reply")
                 labels.append("uihb:device-error")
             if nominal and rep["errorcode"] != 0:
                 raise Violation("uihb-nominal-failed", repr(rep))
